@@ -172,6 +172,18 @@ def mcs_compare(case, impl, want):
 
 
 def recheck(case):
+    if case.get("kind") == "rmsup":
+        from inference.optimizer import remove_supersets
+
+        fam = case["family"]
+        line = f"rmsup {len(fam)} " + " ".join(f"{len(x)} " + " ".join(map(str, x)) if x else "0" for x in fam)
+        want = sorted(map(tuple, parse_sets(core.driver_batch([line])[0])))
+        got = sorted(tuple(sorted(x)) for x in remove_supersets([set(x) for x in fam]))
+        if got != want:
+            return {"case": case, "impl": got, "spec": want,
+                    "signature": "remove_supersets does not return exactly the inclusion-minimal sets, each once",
+                    "what": "remove_supersets wrong", "theorem": "InfOCF.removeSupersets_spec"}
+        return None
     if case.get("kind") == "cnf":
         res = cnf_case_eval(case)
         return cnf_failures(case, res, first_only=True)
@@ -290,8 +302,48 @@ def run(ctx):
     names = core.names_for(4)
     ctx.sample({"cnf_case": [core.cond_text((b, a), names) for _, b, a in cnf_cases[-1]["base"]],
                 "clauses_of_first": results[-1]["items"][:1]})
+    # ---- (a') remove_supersets on arbitrary families in arbitrary order -------------------------
+    from inference.optimizer import remove_supersets
+
+    fams = []
+    for _ in range(300 if quick else 6000):
+        m = rng.randint(0, 6)
+        fams.append([sorted(rng.sample(range(1, 7), rng.randint(0, 4))) for _ in range(m)])
+    lines = [f"rmsup {len(f)} " + " ".join(f"{len(x)} " + " ".join(map(str, x)) if x else "0" for x in f) for f in fams]
+    for fam, resp in zip(fams, core.driver_batch(lines)):
+        ctx.evaluations += 1
+        want = sorted(map(tuple, parse_sets(resp)))
+        try:
+            got = sorted(tuple(sorted(x)) for x in remove_supersets([set(x) for x in fam]))
+        except Exception as e:  # noqa: BLE001
+            got = f"{type(e).__name__}"
+        if any(set(a) < set(b) for a in fam for b in fam):
+            ctx.nontrivial.add(hash(json.dumps(fam)))
+            ctx.bump("rmsup:family_with_proper_superset")
+        if got != want:
+            ctx.failures.append({"case": {"kind": "rmsup", "family": fam}, "impl": got, "spec": want,
+                                 "signature": "remove_supersets does not return exactly the inclusion-minimal sets, each once",
+                                 "what": "remove_supersets wrong", "theorem": "InfOCF.removeSupersets_spec"})
     # ---- (b) enumeration ----------------------------------------------------------------
     bases = answers.gen_cases(ctx, 60 if quick else 1500, (2, 5), (2, 7), [False], ties=0.5, q_per=5, consts=0.1)
+    # bases whose conditionals have multi-clause non-falsification CNFs (conjunctive consequents), where the number of
+    # violated soft clauses and the number of falsified conditionals disagree
+    for _ in range(60 if quick else 1500):
+        n = rng.randint(3, 5)
+        conds = []
+        for _j in range(rng.randint(2, 5)):
+            lits = [("a", i) if rng.random() < 0.6 else ("!", ("a", i)) for i in rng.sample(range(n), rng.randint(1, 3))]
+            if rng.random() < 0.4:
+                lits.append(("|", ("a", rng.randrange(n)), ("!", ("a", rng.randrange(n)))) if rng.random() < 0.3 else core.gen_formula(rng, n, 1, 0.0))
+            cons = lits[0]
+            for l in lits[1:]:
+                cons = ("&", cons, l)
+            conds.append((cons, core.gen_formula(rng, n, 1, 0.0)))
+        qs = [core.gen_cond(rng, n, 2, 0.0) for _q in range(5)]
+        c = answers.mk_case(n, n, list(enumerate(conds, 1)), list(enumerate(qs, 1)), False)
+        if answers.classify(c)["status"] == "ok":
+            bases.append(c)
+            ctx.bump("mcs:multi_clause_base")
     mcs_cases = [c for c in answers.load_corpus("C15") if c.get("style")]
     for b in bases:
         b = {k: v for k, v in b.items() if not k.startswith("_")}
